@@ -76,9 +76,11 @@ def init (cap : Nat) : Sline := ⟨List.replicate cap 0, cap, 0, 0, false⟩
 /-- `sline_reset` -/
 def reset (s : Sline) : Sline := { s with len := 0, cursor := 0 }
 
-/-- `sline_getline`: `buf[len] = '\0'` -/
+/-- `sline_getline`: `buf[len] = '\0'` (round 3, `fix: sline_getline writes no
+terminator into a line without a buffer`: `if (sl->cap)`) -/
 def getline (s : Sline) : Sline :=
-  { s with buf := (wr s.buf s.len 0).1, fault := s.fault || (wr s.buf s.len 0).2 }
+  if s.cap = 0 then s
+  else { s with buf := (wr s.buf s.len 0).1, fault := s.fault || (wr s.buf s.len 0).2 }
 
 /-- the characters `(buf, len)` denotes — what `sline_getline` / `(data, size)` hand out -/
 def text (s : Sline) : List Byte := s.buf.take s.len
@@ -123,10 +125,10 @@ def delete (s : Sline) (count : Nat) : Sline × Nat :=
   else
     ({ s with len := len, fault := s.fault || wrap }, count)
 
-/-- `sline_putchar`: refuses when `len >= cap - 1` (unsigned: `cap = 0` wraps
-and never refuses) -/
+/-- `sline_putchar`: refuses when `len + 1 >= cap` (fix bd7ecca; it was
+`len >= cap - 1`, which wrapped for `cap = 0` and never refused) -/
 def putchar (s : Sline) (c : Byte) : Sline × Nat :=
-  if 1 ≤ s.cap ∧ s.cap - 1 ≤ s.len then (s, 0)
+  if s.cap ≤ s.len + 1 then (s, 0)
   else
     let m := if s.cursor ≠ s.len then mmove s.buf (s.cursor + 1) s.cursor (s.len - s.cursor)
              else (s.buf, false)
@@ -136,15 +138,15 @@ def putchar (s : Sline) (c : Byte) : Sline × Nat :=
 
 /-- `sline_newdata(sl, data, n)` after `fix: sline_newdata keeps one byte for
 the terminator`: `n` is clamped to `sline_avail - 1 = (int)(cap - len) - 1`.
-A negative limit (only when `len ≥ cap`) would become a huge `size_t`: flagged. -/
+A negative limit (only when `len ≥ cap`, i.e. `cap = 0`) inserts nothing since fix
+21c90c1 (the truncating `Nat` subtraction gives 0). -/
 def newdata (s : Sline) (data : List Byte) (n : Nat) : Sline × Nat :=
-  let neg := decide (s.cap < s.len + 1)
   let n := if n > s.cap - s.len - 1 then s.cap - s.len - 1 else n
   let m := if s.cursor ≠ s.len then mmove s.buf (s.cursor + n) s.cursor (s.len - s.cursor)
            else (s.buf, false)
   let w := mcpy m.1 s.cursor data 0 n
   ({ s with buf := w.1, cursor := s.cursor + n, len := s.len + n,
-            fault := s.fault || m.2 || w.2 || neg || decide (s.len < s.cursor) }, n)
+            fault := s.fault || m.2 || w.2 || decide (s.len < s.cursor) }, n)
 
 /-- `sline_newdata(sl, data, len)` with the `int len` exactly as the caller gives
 it (negative, zero, or smaller than the data), after `fix: sline_newdata treats a
@@ -516,5 +518,146 @@ def put (s : Screen) (b : Byte) : Screen :=
 def feed (s : Screen) (bs : List Byte) : Screen := bs.foldl put s
 
 end Screen
+
+/-! ### `sline_avail` / `sline_newdata` at the C widths
+
+`cap`, `len` are `unsigned int`, `sline_avail` returns `int`: `(int)(cap - len)`.
+For `cap - len ≥ 2^31` that is negative. -/
+
+/-- `(int)u` for a 32-bit unsigned value -/
+def toInt32 (u : Nat) : Int := if u % 4294967296 < 2147483648 then ((u % 4294967296 : Nat) : Int) else ((u % 4294967296 : Nat) : Int) - 4294967296
+
+/-- `sline_avail`: `(int)(cap - len)`, the subtraction in `unsigned int` -/
+def Sline.availC (s : Sline) : Int := toInt32 (s.cap + 4294967296 - s.len % 4294967296)
+
+/-- `sline_newdata(sl, data, len)` with every intermediate value at its C width:
+`avail = sline_avail(sl)` (an `int`), `avail - 1` (signed: overflows for
+`avail = INT_MIN`, flagged as a fault = undefined behaviour), clamp, negative → 0. -/
+def Sline.newdataC (s : Sline) (data : List Byte) (n : Int) : Sline × Int :=
+  let avail := s.availC
+  let ub := decide (avail = -2147483648)
+  let n := if n > avail - 1 then avail - 1 else n
+  let n := if n < 0 then 0 else n
+  let k := n.toNat
+  let m := if s.cursor ≠ s.len then mmove s.buf (s.cursor + k) s.cursor (s.len - s.cursor)
+           else (s.buf, false)
+  let w := mcpy m.1 s.cursor data 0 k
+  ({ s with buf := w.1, cursor := s.cursor + k, len := s.len + k,
+            fault := s.fault || m.2 || w.2 || ub || decide (s.len < s.cursor) }, n)
+
+/-- `igris::sline::newdata(const char *data, size_t sz)`: `::sline_newdata(&sl, data, sz)` converts the
+`size_t` to the `int` parameter -/
+def Sline.newdataSz (s : Sline) (data : List Byte) (sz : Nat) : Sline × Int := s.newdataC data (toInt32 sz)
+
+/-! ## round 3: the `int16_t` parameter, settings between keys, a W-column terminal -/
+
+/-- C conversion `char → int16_t` (`char` is signed on the platform): the value
+a caller that holds the byte in a `char` passes to `vterm_automate_newdata` -/
+def sextChar (b : Byte) : Int := if b.toNat < 128 then (b.toNat : Int) else (b.toNat : Int) - 256
+
+namespace Vterm
+
+/-- `vterm_automate_newdata(vterm, input_c)` / `vtermxx::newdata(input_c)` with the
+`int16_t` exactly as the caller gives it (after `fix: only VTERM_INIT_STEP is the
+init step`): `-1` runs the loop without a character, every other value is the
+character `(char)input_c` (low 8 bits). -/
+def keyI (v : Vterm) (i : Int) : Vterm × List Byte × List Ev :=
+  if i = -1 then (v.initStep.1, v.initStep.2, []) else v.key (BitVec.ofInt 8 i)
+
+end Vterm
+
+/-- what a caller can do with a terminal object between two keys -/
+inductive Act
+  | key (c : Byte)               -- `newdata((int16_t)(unsigned char)c)`
+  | keyI (i : Int)               -- `newdata(i)`, any `int16_t`
+  | initStep                     -- `vterm_automate_init_step`
+  | setPrompt (p : List Byte)    -- `set_prompt` / `prefix_string = …`
+  | setEcho (e : Bool)           -- `set_echo` / `echo = …`
+deriving DecidableEq, Repr
+
+namespace Vterm
+
+def act (v : Vterm) : Act → Vterm × List Byte × List Ev
+  | .key c => v.key c
+  | .keyI i => v.keyI i
+  | .initStep => (v.initStep.1, v.initStep.2, [])
+  | .setPrompt p => ({ v with prompt := p }, [], [])
+  | .setEcho e => ({ v with echo := e }, [], [])
+
+def runActs (v : Vterm) (as : List Act) : Vterm := as.foldl (fun v a => (v.act a).1) v
+
+def actEvents : Vterm → List Act → List Ev
+  | _, [] => []
+  | v, a :: as => (v.act a).2.2 ++ actEvents (v.act a).1 as
+
+def actEchoed : Vterm → List Act → List Byte
+  | _, [] => []
+  | v, a :: as => (v.act a).2.1 ++ actEchoed (v.act a).1 as
+
+end Vterm
+
+/-- the bytes a list of actions types -/
+def Act.typed : List Act → List Byte
+  | [] => []
+  | .key c :: as => c :: Act.typed as
+  | .keyI i :: as => if i = -1 then Act.typed as else BitVec.ofInt 8 i :: Act.typed as
+  | _ :: as => Act.typed as
+
+/-! ### a terminal with `W` columns and auto-wrap (the reference emulator for
+narrow screens): xterm / VT100 semantics with DECAWM on.  A glyph written in the
+last column leaves the cursor there with the `pending` flag set; the next glyph
+first moves to column 0 of the next row.  `ESC[nD` / `ESC[nC` stay on the row
+(clamped to `0` / `W-1`), `ESC[K` erases to the end of the row, CR / LF / BS as
+usual; every cursor movement clears `pending`.  `above` = the rows left behind
+(most recent first). -/
+structure WScreen where
+  above : List (List Byte)
+  cells : List Byte
+  col : Nat
+  pending : Bool
+  ps : PState
+deriving DecidableEq, Repr
+
+namespace WScreen
+
+def blank : WScreen := ⟨[], [], 0, false, .ground⟩
+
+def putGlyph (W : Nat) (s : WScreen) (b : Byte) : WScreen :=
+  let s := if s.pending then { s with above := s.cells :: s.above, cells := [], col := 0, pending := false } else s
+  let cells := if s.col < s.cells.length then s.cells.set s.col b
+               else s.cells ++ List.replicate (s.col - s.cells.length) 0x20 ++ [b]
+  if s.col + 1 < W then { s with cells := cells, col := s.col + 1 }
+  else { s with cells := cells, pending := true }
+
+def put (W : Nat) (s : WScreen) (b : Byte) : WScreen :=
+  match s.ps with
+  | .ground =>
+    if b = ESC then { s with ps := .esc }
+    else if b = CR then { s with col := 0, pending := false }
+    else if b = LF then { s with above := s.cells :: s.above, cells := [], pending := false }
+    else if b = BS then { s with col := s.col - 1, pending := false }
+    else if Screen.isPrintable b then s.putGlyph W b
+    else s
+  | .esc =>
+    if b = 0x5b then { s with ps := .csi none } else { s with ps := .ground }
+  | .csi n =>
+    if Screen.isDigit b then { s with ps := .csi (some (n.getD 0 * 10 + (b.toNat - 48))) }
+    else
+      let k := if n.getD 1 = 0 then 1 else n.getD 1
+      if b = 0x44 then { s with col := s.col - k, pending := false, ps := .ground }
+      else if b = 0x43 then { s with col := if s.col + k < W then s.col + k else W - 1, pending := false, ps := .ground }
+      else if b = 0x4b then { s with cells := s.cells.take s.col, ps := .ground }
+      else { s with ps := .ground }
+
+def feed (W : Nat) (s : WScreen) (bs : List Byte) : WScreen := bs.foldl (put W) s
+
+/-- what a correct display of `text` with the cursor before `text[idx]` looks
+like on `W` columns: the rows of the text cut every `W` glyphs, the cursor's row
+and column -/
+def chunks (W : Nat) : Nat → List Byte → List (List Byte)
+  | 0, _ => []
+  | fuel + 1, t => if t.length ≤ W then [t] else t.take W :: chunks W fuel (t.drop W)
+
+end WScreen
 
 end Igris.C15
